@@ -218,30 +218,43 @@ Proof.
       unfold pl_insert; simpl. apply updf_other. lia.
 Qed.
 
-Lemma setslice_view : forall s a b vs, wf s -> a <= b <= length (col s) ->
-  let sl := mkslice (Some (Z.of_nat a)) (Some (Z.of_nat b)) None in
-  fst (pl_setslice s sl vs) = POk /\ wf (snd (pl_setslice s sl vs)) /\
-  to_list (snd (pl_setslice s sl vs)) = firstn a (to_list s) ++ vs ++ skipn b (to_list s).
+(* contiguous slice: delete b - a elements at a, then insert the new values from a on *)
+Lemma slice1_view : forall s a b vs, wf s -> a <= b <= length (col s) ->
+  fst (pl_del_loop (b - a) (Z.of_nat a) s) = POk /\
+  wf (pl_ins_loop (Z.of_nat a) vs (snd (pl_del_loop (b - a) (Z.of_nat a) s))) /\
+  to_list (pl_ins_loop (Z.of_nat a) vs (snd (pl_del_loop (b - a) (Z.of_nat a) s)))
+    = firstn a (to_list s) ++ vs ++ skipn b (to_list s).
 Proof.
-  intros s a b vs W H sl. unfold pl_setslice. simpl.
-  assert (E0 : (Z.of_nat b <? 0)%Z = false) by lia. rewrite E0.
-  assert (Sa : (if (Z.of_nat a =? 0)%Z then 0%Z else Z.of_nat a) = Z.of_nat a).
-  { destruct (Z.eqb_spec (Z.of_nat a) 0); lia. }
-  rewrite !Sa.
-  assert (RL : length (range (Z.of_nat a) (Z.of_nat b) 1) = b - a).
-  { rewrite range_length, slicelen_step1. lia. }
-  rewrite RL.
+  intros s a b vs W H.
   destruct (del_loop_spec (b - a) s a W) as (R & W1 & C & P & N); [lia|].
   destruct (pl_del_loop (b - a) (Z.of_nat a) s) as [r s1]; simpl in *. subst r.
   replace (a + (b - a)) with b in C by lia.
   destruct (ins_loop_spec vs s1 a (firstn a (col s)) (skipn b (col s)) W1 C) as [W2 [news [E1 [E2 E3]]]].
   { rewrite firstn_length; lia. }
   split; auto. split; auto.
-  cbn [snd]. unfold to_list. rewrite E1, !map_app, E2, firstn_map, skipn_map.
+  unfold to_list. rewrite E1, !map_app, E2, firstn_map, skipn_map.
   destruct W as [_ B].
   f_equal; [|f_equal]; apply map_ext_in'; intros o Ho; rewrite E3, P; auto; rewrite N; apply B.
   - eapply In_firstn'; eauto.
   - eapply In_skipn'; eauto.
+Qed.
+
+(* extended slice: the values are stored into the existing intermediaries *)
+Lemma set_loop_view : forall ivs s, wf s ->
+  (forall i v, In (i, v) ivs -> (0 <= i < zlen (col s))%Z) ->
+  fst (pl_set_loop ivs s) = POk /\ wf (snd (pl_set_loop ivs s)) /\
+  to_list (snd (pl_set_loop ivs s)) = assign_at (to_list s) ivs.
+Proof.
+  induction ivs as [|[i v] r IH]; intros s W B; simpl; auto.
+  assert (Bi : (0 <= i < zlen (col s))%Z) by (apply (B i v); left; auto).
+  unfold py_getitem. rewrite norm_index_nonneg by assumption.
+  destruct (nth_error (col s) (Z.to_nat i)) as [o|] eqn:E;
+    [|apply nth_error_None in E; unfold zlen in Bi; lia].
+  assert (W' : wf (set_val s o v)) by exact W.
+  destruct (IH (set_val s o v) W') as (R & W2 & T).
+  { intros j w Hj. apply (B j w). right; auto. }
+  split; auto. split; auto. rewrite T. unfold assign_at. simpl. f_equal.
+  unfold to_list. simpl. apply map_set_nth_updf; auto. apply W.
 Qed.
 
 Lemma delslice_wf : forall s sl c, wf s -> py_delslice (col s) sl = Ok c -> wf (with_col s c).
@@ -292,44 +305,30 @@ Proof.
     pose proof (norm_index_lt _ _ _ _ N) as Hlt.
     destruct (nth_error (col s) n) as [o|] eqn:E; [|apply nth_error_None in E; lia].
     simpl. split; [exact W|]. f_equal. apply map_set_nth_updf; auto. apply W.
-  - (* slice assignment inside the guard *)
-    simpl in G.
-    assert (HS : sstep sl = None \/ sstep sl = Some 1%Z).
-    { destruct (sstep sl) as [[|[| |]|]|]; auto; discriminate. }
-    set (a := match sstart sl with None => 0%Z | Some x => x end) in *.
-    set (b := match sstop sl with None => zlen (col s) | Some x => x end) in *.
-    assert (GB : (0 <= a /\ a <= b /\ b <= zlen (col s))%Z).
-    { destruct HS as [HS|HS]; rewrite HS in G;
-        apply andb_prop in G; destruct G as [G G3]; apply andb_prop in G; destruct G as [G1 G2]; lia. }
-    assert (NORM : pl_setslice s sl vs =
-                   pl_setslice s (mkslice (Some (Z.of_nat (Z.to_nat a))) (Some (Z.of_nat (Z.to_nat b))) None) vs).
-    { unfold pl_setslice. simpl. rewrite !Z2Nat.id by lia.
-      assert (E1 : match sstop sl with
-                   | None => zlen (col s)
-                   | Some t => if (t <? 0)%Z then (zlen (col s) + t)%Z else t end = b).
-      { unfold b. destruct (sstop sl) as [t|]; auto. destruct (t <? 0)%Z eqn:E; auto. unfold b in GB. lia. }
-      assert (E2 : or_dflt (sstep sl) 1%Z = 1%Z) by (destruct HS as [-> | ->]; reflexivity).
-      assert (E3 : or_dflt (sstart sl) 0%Z = a).
-      { unfold a, or_dflt. destruct (sstart sl) as [t|]; auto. destruct (Z.eqb_spec t 0); auto. }
-      assert (E4 : (if (b <? 0)%Z then (zlen (col s) + b)%Z else b) = b) by (destruct (b <? 0)%Z eqn:E; lia).
-      assert (E5 : (if (a =? 0)%Z then 0%Z else a) = a) by (destruct (Z.eqb_spec a 0); lia).
-      rewrite E1, E2, E3, E4, !E5. reflexivity. }
-    rewrite NORM.
-    destruct (setslice_view s (Z.to_nat a) (Z.to_nat b) vs W) as (R & W1 & E).
-    { unfold zlen in GB. lia. }
-    split; auto.
-    assert (ADJ : adjust sl (zlen (to_list s)) = Ok (a, b, 1%Z)).
-    { unfold adjust, to_list. rewrite zlen_map.
-      assert (St : match sstep sl with None => 1%Z | Some x => x end = 1%Z) by (destruct HS as [-> | ->]; reflexivity).
-      rewrite St. simpl.
-      assert (Ea : match sstart sl with Some v => clamp_index 1 (zlen (col s)) v | None => 0%Z end = a).
-      { unfold a. destruct (sstart sl) as [t|] eqn:Es; auto. apply clamp_in. unfold a, b in GB. try rewrite Es in GB. lia. }
-      assert (Eb : match sstop sl with Some v => clamp_index 1 (zlen (col s)) v | None => zlen (col s) end = b).
-      { unfold b. destruct (sstop sl) as [t|] eqn:Es; auto. apply clamp_in. unfold a, b in GB. try rewrite Es in GB. lia. }
-      rewrite Ea, Eb. reflexivity. }
-    rewrite ADJ. cbn [materialise]. unfold py_setslice. rewrite ADJ. simpl.
-    rewrite Z.max_r by lia.
-    rewrite R, E. reflexivity.
+  - (* slice assignment: any slice *)
+    unfold pl_setslice.
+    assert (ZL : zlen (to_list s) = zlen (col s)) by (unfold to_list; apply zlen_map).
+    rewrite ZL.
+    assert (Hl : (0 <= zlen (col s))%Z) by (unfold zlen; lia).
+    destruct (adjust sl (zlen (col s))) as [[[start stop] step]|e] eqn:A; [|simpl; auto].
+    destruct (adjust_bounds _ _ _ _ _ Hl A) as (Hs & Hp & Hn).
+    cbn [materialise]. unfold py_setslice. rewrite ZL, A.
+    destruct (Z.eqb_spec step 1) as [->|N1].
+    + destruct (Hp ltac:(lia)) as [B1 B2].
+      set (a := Z.to_nat start). set (b := Z.to_nat (Z.max start stop)).
+      assert (RL : length (range start stop 1) = b - a).
+      { rewrite range_length, slicelen_step1. unfold a, b. lia. }
+      assert (Ea : Z.of_nat a = start) by (unfold a; lia).
+      rewrite RL, <- Ea.
+      destruct (slice1_view s a b vs W) as (R & W1 & E).
+      { unfold a, b, zlen in *. lia. }
+      destruct (pl_del_loop (b - a) (Z.of_nat a) s) as [r s1]; simpl in *. subst r. simpl.
+      split; auto. rewrite E. reflexivity.
+    + destruct (Nat.eqb (length vs) (length (range start stop step))) eqn:L; [|simpl; auto].
+      destruct (set_loop_view (combine (range start stop step) vs) s W) as (R & W1 & T).
+      { intros i v H. apply in_combine_l in H. eapply range_in_bounds; eauto. }
+      destruct (pl_set_loop (combine (range start stop step) vs) s) as [r s1]; simpl in *. subst r.
+      split; auto. rewrite T. reflexivity.
   - destruct (delitem_view s i W) as [W1 E]. split; auto.
     destruct (pl_delitem s i) as [r s'], (py_delitem (to_list s) i) as [l'|e']; simpl in *;
       destruct r; try contradiction; try (destruct E; subst); auto.
@@ -430,10 +429,10 @@ Proof.
     destruct (find_key (pkey s) k (col s)) as [o|]; simpl; auto.
     split; [apply pd_del_wf; auto|]. rewrite pd_del_view; reflexivity.
   - split; [apply wf_with_col; auto; [constructor|intros o []]|reflexivity].
-  - rewrite d_get_view. simpl in G.
+  - rewrite d_get_view.
     destruct (find_key (pkey s) k (col s)) as [o|]; simpl.
     + split; [apply pd_del_wf; auto|]. rewrite pd_del_view; reflexivity.
-    + destruct dflt; [discriminate|]. auto.
+    + destruct dflt; auto.
   - unfold d_last, to_dict. rewrite <- map_rev.
     destruct (rev (col s)) as [|o r]; simpl; auto.
     split; [apply pd_del_wf; auto|]. f_equal. apply (pd_del_view s (pkey s o)).
